@@ -17,6 +17,20 @@ paths), `Lemmas/LatticeSimplex.lean` (ravel/strides, tie-independence, insertion
 cell faces).
 Every statement is for all ranks, sizes, rational kernels and rational points.
 Continuity across cells / simplex regions as explicit Lipschitz and ε–δ theorems: `Props/C02Lip.lean` (`C02_T6_*`).
+
+SCOPE. Every theorem that speaks about a cell, convexity, range or monotonicity carries
+`Defined clipOn sizes x` (`x` has the lattice's rank and is in range, or `clip_inputs` is on) for EACH
+point it mentions. The case `clip_inputs=False` with a coordinate outside `[0, size_d − 1]` is OUTSIDE
+property C02: the property interpolates "the cell containing the point, with out-of-range coordinates
+clipped onto the lattice when clip_inputs is on" and bounds "the output for in-range or clipped
+inputs"; an unclipped out-of-range point has no containing cell. The exclusion is necessary:
+`Props/C02Outside.lean` gives counter-witnesses (`*_needs_defined`) — there the code extrapolates with
+the outermost hat weights (general path), linearly (all-2 tensor path; tensor and list input differ), or
+gathers out-of-bounds / wrong vertices (simplex) — and the harness compares model and real code on such
+points on every run (class `outside:clip_off_out_of_range`), the T1 statements (`C02_T1_oneD_paths`,
+`C02_T1_weights`, `C02_T1_hypercube_eq_interp` with their third disjunct) still describing what is
+computed there. Cell support of the weights ("convex combination of the CELL's corners") and Edgeworth
+for arbitrary axes / both directions: `Props/C02Cell.lean`.
 -/
 namespace Tfl.C02
 open Tfl Tfl.LatticeEval
@@ -107,7 +121,8 @@ theorem C02_T1_hypercube_eq_interp (form : InputForm) (clipOn : Bool) (sizes : L
   exact evalFlat_eq_evalRec sizes _ K (effPoint_length hl)
 
 /-- T1 (paths equal as functions): tensor input and list-of-tensors input give the same weights
-for in-range or clipped inputs. -/
+for in-range or clipped inputs. (Clip off and out of range — outside the property — they DIFFER on
+all-2 lattices: `outside_forms_differ`, `C02_T1_forms_agree_needs_defined`.) -/
 theorem C02_T1_forms_agree (clipOn : Bool) (sizes : List Nat) (x : List ℚ) (hs : sizes ≠ [])
     (h : Defined clipOn sizes x) :
     hypercubeWeights .tensor clipOn sizes x = hypercubeWeights .list clipOn sizes x := by
@@ -144,7 +159,10 @@ theorem C02_T2_vertex (form : InputForm) (clipOn : Bool) (sizes : List Nat) (K :
   exact evalRec_vertex sizes idx K hi
 
 /-- T2: for in-range or clipped inputs the interpolation weights are ≥ 0 and sum to 1 — the output
-is a convex combination of kernel values. -/
+is a convex combination of kernel values (that only the corners of the cell containing the point
+carry weight: `C02_T2_cell_corners`, `C02_T2_weights_vanish_off_cell`). `clip_inputs=False` with an
+out-of-range coordinate is outside the property; `Defined` cannot be dropped
+(`C02_T2_convex_weights_needs_defined`: weights `[3/2, −1/2]`, resp. sum `1/2`). -/
 theorem C02_T2_convex_weights (form : InputForm) (clipOn : Bool) (sizes : List Nat) (x : List ℚ)
     (hs : sizes ≠ []) (hs2 : ∀ n ∈ sizes, 2 ≤ n) (h : Defined clipOn sizes x) :
     (∀ w ∈ hypercubeWeights form clipOn sizes x, 0 ≤ w) ∧ rsum (hypercubeWeights form clipOn sizes x) = 1 := by
@@ -158,7 +176,9 @@ theorem C02_T2_convex_weights (form : InputForm) (clipOn : Bool) (sizes : List N
     simpa [evalFlat] using h1
 
 /-- T2: the output for in-range or clipped inputs never leaves `[min kernel, max kernel]`
-(stated with arbitrary bounds `lo ≤ K ≤ hi` on the vertices). -/
+(stated with arbitrary bounds `lo ≤ K ≤ hi` on the vertices). The property claims this for "in-range
+or clipped inputs" only; without `Defined` it is false (`C02_T2_range_needs_defined`: constant kernel 1,
+`clip_inputs=False`, `x = 5/2` on `[3]` gives `1/2`). -/
 theorem C02_T2_range (form : InputForm) (clipOn : Bool) (sizes : List Nat) (K : W) (x : List ℚ) (lo hi : ℚ)
     (hs : sizes ≠ []) (hs2 : ∀ n ∈ sizes, 2 ≤ n) (h : Defined clipOn sizes x)
     (hK : ∀ idx ∈ allIdx sizes, lo ≤ K idx ∧ K idx ≤ hi) :
@@ -194,7 +214,11 @@ private theorem size_ge_two {sizes : List Nat} (hs2 : ∀ n ∈ sizes, 2 ≤ n) 
 
 /-- T4 (hypercube): if the kernel is non-decreasing along dimension `d`, then for EVERY pair of
 points that differ only in coordinate `d` (`x_d ≤ v`, any distance apart, any cells) and are
-in-range or clipped, the output does not decrease. Via the PWL ramp form — no floors. -/
+in-range or clipped, the output does not decrease. Via the PWL ramp form — no floors.
+"Every pair of points" of the property = every pair of in-range or clipped points: with
+`clip_inputs=False` and a point outside the range (outside the property: no containing cell) the
+statement is false for either point (`C02_T4_hypercube_mono_needs_defined_upper` / `_lower`: kernel
+`[0, 1, 2]`, `f(2) = 2 > f(5/2) = 1`; all-2 fast path `outside_fastpath_decreases`). -/
 theorem C02_T4_hypercube_mono (form : InputForm) (clipOn : Bool) (sizes : List Nat) (K : W) (x : List ℚ)
     (d : Nat) (v : ℚ) (hs : sizes ≠ []) (hs2 : ∀ n ∈ sizes, 2 ≤ n) (hd : d < sizes.length)
     (hm : MonoAx sizes d K) (hx : Defined clipOn sizes x) (hx' : Defined clipOn sizes (x.set d v))
@@ -231,7 +255,9 @@ theorem C02_T4_hypercube_mono (form : InputForm) (clipOn : Bool) (sizes : List N
 leading axes (for every position of the remaining axes; the condition is symmetric in main and
 conditional feature) makes the effect `f(a', ·) - f(a, ·)` of the main feature non-decreasing in
 the conditional feature, for ALL in-range or clipped point quadruples (other coordinates `zs`
-fixed and arbitrary). -/
+fixed and arbitrary). Arbitrary distinct axes `(m, c)` and the negative trust direction:
+`C02_T5_edgeworth_axes`, `C02_T5_edgeworth_axes_neg` (Props/C02Cell.lean); this theorem is their
+instance `(0, 1)` (`edgeworth01_iff_axes`). Unclipped out-of-range points are outside the property. -/
 theorem C02_T5_edgeworth (form : InputForm) (clipOn : Bool) (n m : Nat) (rest : List Nat) (K : W)
     (zs : List ℚ) (a a' b b' : ℚ) (hn : 2 ≤ n) (hm : 2 ≤ m) (hK : Edgeworth01 n m rest K)
     (h00 : Defined clipOn (n :: m :: rest) (a :: b :: zs)) (h10 : Defined clipOn (n :: m :: rest) (a' :: b :: zs))
@@ -453,7 +479,9 @@ theorem C02_T3_agree_vertex (form : InputForm) (clipOn : Bool) (sizes : List Nat
   exact ⟨by rw [this, C02_T2_vertex form clipOn sizes K idx hne hi], this⟩
 
 /-- T3 (range): for in-range or clipped inputs the simplex evaluation succeeds and its output never
-leaves `[min kernel, max kernel]` (stated with arbitrary bounds `lo ≤ K ≤ hi` on the vertices). -/
+leaves `[min kernel, max kernel]` (stated with arbitrary bounds `lo ≤ K ≤ hi` on the vertices).
+Without `Defined` (clip off, out of range: outside the property) the evaluation may raise
+`InvalidArgumentError` or leave the range (`outside_simplex`, `C02_T3_simplex_range_needs_defined`). -/
 theorem C02_T3_simplex_range (clipOn : Bool) (sizes : List Nat) (K : W) (x : List ℚ) (lo hi : ℚ)
     (hne : sizes ≠ []) (hs2 : ∀ n ∈ sizes, 2 ≤ n) (h : Defined clipOn sizes x)
     (hK : ∀ idx ∈ allIdx sizes, lo ≤ K idx ∧ K idx ≤ hi) :
@@ -475,7 +503,9 @@ theorem C02_T3_simplex_range (clipOn : Bool) (sizes : List Nat) (K : W) (x : Lis
 /-! ## T4 (simplex) -/
 
 /-- the all-pairs statement for simplex interpolation; proved below
-(`C02_T4_simplex_mono_all_pairs`). -/
+(`C02_T4_simplex_mono_all_pairs`). "All pairs" = all pairs of in-range or clipped points (`Defined` for
+both); an unclipped out-of-range point is outside the property and the statement fails there
+(`C02_T4_simplex_mono_needs_defined`). -/
 def C02_simplex_mono_all_pairs : Prop :=
   ∀ (clipOn : Bool) (sizes : List Nat) (K : W) (x : List ℚ) (d : Nat) (v : ℚ) (a b : ℚ),
     sizes ≠ [] → (∀ n ∈ sizes, 2 ≤ n) → d < sizes.length → MonoAx sizes d K →
@@ -504,7 +534,9 @@ regions of the sort, across any number of cells, through ties and cell faces) bo
 evaluations succeed and the output does not decrease. Proof: index bridge; tie-independence puts
 the sorted list into the canonical form "other coordinates with `(t, d)` inserted"; inserting at
 a larger value is monotone by induction along the list (`walkK_insert_mono`); residual 1 in a cell
-equals residual 0 in the next cell (`walk_face`); a finite chain of cells along the axis. -/
+equals residual 0 in the next cell (`walk_face`); a finite chain of cells along the axis.
+`Defined` of both points is needed: `C02_T4_simplex_mono_needs_defined` (clip off, `x = (1, −3/2)` on
+`[3, 3]` reads the vertex `(0, 2)`: `f = 10 > f(1, 0) = 0`) — that case is outside the property. -/
 theorem C02_T4_simplex_mono (clipOn : Bool) (sizes : List Nat) (K : W) (x : List ℚ) (d : Nat) (v : ℚ)
     (hne : sizes ≠ []) (hs2 : ∀ n ∈ sizes, 2 ≤ n) (hd : d < sizes.length) (hm : MonoAx sizes d K)
     (hx : Defined clipOn sizes x) (hx' : Defined clipOn sizes (x.set d v)) (hv : x.getD d 0 ≤ v) :
